@@ -154,6 +154,7 @@ struct Msg {
     S bytes;           // what the peer sends
     long n = 0;        // lbody / wlen: declared length
     S extra;           // further JSON fields of the M line
+    size_t tail = 0;   // the last `tail` bytes are not part of the message: they follow it on the connection (the next message)
     S rkind() const { return kind == "wchunk" ? "cbody" : kind == "wlen" ? "lbody" : kind == "wmsg" ? "resp" : kind; }
 };
 static FragStream g_st;
@@ -313,6 +314,7 @@ static void run_msg(const Msg& m, const Plan& pl, vt::Rng& rng) {
     {
         vt::Ev e("M"); e.i("id", id).s("kind", m.kind).raw("msg", bytes(m.bytes));
         if (m.kind == "lbody" || m.kind == "wlen") e.i("dn", m.n);
+        if (m.tail) e.i("tail", m.tail);
         if (!m.extra.empty()) e.j += "," + m.extra;
     }
     memset(g_buf, 0, g_cap);
@@ -422,8 +424,8 @@ static Msg written_msg(bool chunked, const std::vector<size_t>& sizes, bool keep
 }
 
 // ---- seeded random messages
-static const char* NAMES[] = {"Host", "Accept", "X-a", "x-b", "Content-Type", "Authorization", "Server", "Date", "ETag",
-                              "Proxy-Authenticate", "k", "Zz", "Yyyyyyyyy", "X-Forwarded-For", "If-None-Match", "Cookie"};
+static const char* NAMES[] = {"Host", "Accept", "X-a", "x-b", "Content-Type", "Accept-Encoding", "Server", "Date", "ETag",
+                              "Proxy-Connection", "k", "Zz", "Yyyyyyyyy", "X-Forwarded-For", "If-None-Match", "Cookie"};
 static S rcase(vt::Rng& r, S s) { for (auto& c : s) if (r.coin(30)) { if (c >= 'a' && c <= 'z') c -= 32; else if (c >= 'A' && c <= 'Z') c += 32; } return s; }
 static S rvalue(vt::Rng& r) {
     static const char cs[] = "abcXYZ019;=,/ -_.%\t\"";
@@ -479,6 +481,10 @@ static Msg random_msg(vt::Rng& r, size_t maxbody) {
     for (size_t i = lines.size(); i > 1; i--) std::swap(lines[i - 1], lines[r.below(i)]);
     for (auto& l : lines) h += l + "\r\n";
     m.bytes = h + "\r\n" + wire;
+    if (fr != 3 && fr != 4 && !(fr == 0 && h.find("HTTP/1.0") != S::npos) && r.coin(25)) {
+        S t = req ? "GET /next HTTP/1.1\r\n\r\n" : "HTTP/1.1 200 OK\r\nContent-Length: 2\r\n\r\nok";
+        m.bytes += t; m.tail = t.size();
+    }
     return m;
 }
 static S mutate(vt::Rng& r, S s) {
@@ -542,6 +548,12 @@ int main(int argc, char** argv) {
         // (A) complete messages through receive_header + read: every cut set of <= K cuts x read sizes {1,2,5,inf}
         Plan pl; pl.K = thorough ? 3 : 2; pl.rnd = thorough ? 2000 : 300; pl.fills = FILLS3; pl.fillK = 1;
         for (auto& m : valid_heads()) run_msg(m, pl, rng);
+        // the same messages followed by the next message on the connection (not the close-delimited ones): nothing of it may be returned
+        Plan pt; pt.K = thorough ? 2 : 1; pt.rnd = thorough ? 300 : 60;
+        for (auto& m : valid_heads()) {
+            if (m.bytes.find("Connection: close") != S::npos || m.bytes.find("HTTP/1.0") != S::npos) continue;
+            for (S t : {S("HTTP/1.1 404 Not Found\r\nContent-Length: 1\r\n\r\nZ"), S("5\r\nHELLO\r\n0\r\n\r\n")}) { Msg f = m; f.bytes += t; f.tail = t.size(); run_msg(f, pt, rng); }
+        }
     }
     if (want("body")) {
         // (B) body streams directly: chunk sizes {0,1,2,3,10,16,17}, at most 2 chunks; fixed length; close-delimited
@@ -554,6 +566,9 @@ int main(int argc, char** argv) {
         for (size_t n : {0, 1, 2, 5, 20}) { Msg m{"lbody", payload(n)}; m.n = n; ms.push_back(m); }
         for (size_t n : {0, 1, 7, 20}) ms.push_back({"xbody", payload(n)});
         for (auto& m : ms) run_msg(m, pl, rng);
+        Plan pt; pt.K = thorough ? 2 : 1; pt.rnd = thorough ? 200 : 40;
+        for (auto a : cs) { Msg f{"cbody", chunked_body({a, 3})}; S t = "4\r\nNEXT\r\n0\r\n\r\n"; f.bytes += t; f.tail = t.size(); run_msg(f, pt, rng); }
+        for (size_t n : {0, 2, 20}) { Msg f{"lbody", payload(n)}; f.n = n; f.bytes += "tail!"; f.tail = 5; run_msg(f, pt, rng); }
     }
     if (want("writer")) {
         // (W) writers: pieces of size {0,1,2,3,10,16,17}, at most 2 pieces (+ one of 3); read back under every cut set of <= 2 cuts
@@ -599,7 +614,7 @@ int main(int argc, char** argv) {
         int N = thorough ? 4000 : 300;
         for (int i = 0; i < N; i++) {
             Msg m = random_msg(rng, i % 10 == 0 ? 150 : 40);
-            if (i % 3 == 2) m.bytes = mutate(rng, m.bytes);
+            if (i % 3 == 2) { m.bytes = mutate(rng, m.bytes.substr(0, m.bytes.size() - m.tail)); m.tail = 0; }
             Plan pl; pl.K = (m.bytes.size() < 80) ? 1 : 0; pl.rnd = thorough ? 40 : 20; pl.fills = FILLS3; pl.fillK = 0;
             pl.rss.clear();
             pl.rss.push_back({(uint32_t)RS_INF}); pl.rss.push_back({1});
